@@ -400,6 +400,16 @@ func (h *OperationProvider) validateCoreIndexFile(cif *models.CoreIndexFile) err
 		return errors.New("core proof file URI should be empty if there are no recover and/or deactivate operations")
 	}
 
+	createNum := 0
+	if cif.Operations != nil {
+		createNum = len(cif.Operations.Create)
+	}
+
+	// create and recover operations carry a delta: without a provisional index file there is no chunk file to take it from
+	if createNum+recoverNum > 0 && cif.ProvisionalIndexFileURI == "" {
+		return errors.New("missing provisional index file URI")
+	}
+
 	err := h.validateCoreIndexCASReferences(cif)
 	if err != nil {
 		return err
